@@ -37,7 +37,13 @@ RULE = ("Four families, each random (seeded) plus an exhaustive small grid. "
         "else ?/None (either L or R accepted only when left == right == "
         "value), crossed iff some frame < interface and some frame >= "
         "interface (i.e. min < interface <= max), middle = M iff the 2nd "
-        "interface is crossed; one- and two-argument forms. Non-trivial: "
+        "interface is crossed; one- and two-argument forms. DERIVED: after "
+        "every paste / reverse / copy (and a copy extended by append() or by "
+        "assigning a longer frame list, as tis.extender does), with the "
+        "derived quantities of the source paths read beforehand in half of "
+        "the cases, the extremes, crossings and end classifications of the "
+        "RESULT must agree with a direct scan of the frames it holds. "
+        "Non-trivial: "
         "paste with both segments non-empty; reverse/copy with >= 2 frames; "
         "classification of a non-constant sequence. Distinct: paste (nb, nf, "
         "overlap, limit kind, limit-nb, limit-total clipped); reverse (n, "
@@ -62,7 +68,8 @@ MUST_REACH = ["paste_length", "paste_first_frame", "paste_frames",
               "paste_time_order", "reverse_order", "reverse_flags",
               "reverse_twice", "copy_frames", "copy_independence",
               "system_copy_independence", "iadd_frames", "iadd_independence",
-              "extremes", "start_point", "end_point", "crossing", "middle"]
+              "extremes", "start_point", "end_point", "crossing", "middle",
+              "derived_after_operation"]
 JOB_TIMEOUT = 1500
 FIELDS = ("config", "order", "pos", "vel", "vel_rev", "ekin", "vpot", "box",
           "temperature")
@@ -160,6 +167,55 @@ def _cmp(a, b):
 
 
 # ------------------------------------------------------------------ PASTE
+def _touch(path):
+    """Read every derived quantity once (fills whatever a path caches)."""
+    if path.length == 0:
+        return
+    try:
+        path.ordermin, path.ordermax
+        path.check_interfaces([1.0, 2.0, 3.0])
+    except BaseException:
+        pass
+
+
+def _derived(rec, path, case, where):
+    """Classification of a path that came out of an operation must agree
+    with a direct scan of the frames it holds NOW (a derived quantity
+    remembered from before the operation is a wrong answer)."""
+    seq = [float(x.order[0]) for x in path.phasepoints]
+    if not seq:
+        return
+    lo, hi = min(seq), max(seq)
+    mid = (lo + hi) / 2
+    triple = sorted({lo, mid, hi}) if lo != hi else [lo]
+    triple = (triple * 3)[:3] if len(triple) < 3 else triple
+    triple = sorted(triple)
+    rec.reach("derived_after_operation")
+    try:
+        omin, omax = path.ordermin, path.ordermax
+        start, end, middle, cross = path.check_interfaces(list(triple))
+    except BaseException as exc:
+        rec.bad("derived-raised", f"{where}: classification raised "
+                f"{type(exc).__name__}: {exc}", case)
+        return
+    want_cross = [lo < x <= hi for x in triple]
+    okst = ["?" if x is None else x
+            for x in _side(seq[0], triple[0], triple[2])]
+    oken = _side(seq[-1], triple[0], triple[2])
+    wrong = []
+    if omin[0] != lo or omax[0] != hi:
+        wrong.append(f"extremes ({omin[0]}, {omax[0]}) != ({lo}, {hi})")
+    elif seq[int(omin[1])] != lo or seq[int(omax[1])] != hi:
+        wrong.append("extreme indices do not hold the extreme values")
+    if [bool(c) for c in cross] != want_cross:
+        wrong.append(f"cross {[bool(c) for c in cross]} != {want_cross}")
+    if start not in okst or end not in oken:
+        wrong.append(f"start/end {start!r}/{end!r} not in {okst}/{list(oken)}")
+    if wrong:
+        rec.bad("derived-quantity-stale", f"{where}: " + "; ".join(wrong) +
+                f" for the frames {seq[:12]} and interfaces {triple}", case)
+
+
 def _do_paste(rec, M, rng, nb, nf, ov, limit_arg, mb, mf, tag):
     P, S, paste, arr = M
     t0 = rng.randrange(-50, 50)
@@ -176,6 +232,8 @@ def _do_paste(rec, M, rng, nb, nf, ov, limit_arg, mb, mf, tag):
             "back": [list(x) for x in fb], "forw": [list(x) for x in ff]}
     rec.n += 1
     rec.hit("paste_cases")
+    if rng.random() < 0.5:
+        _touch(back), _touch(forw)
     try:
         new = paste(back, forw, overlap=bool(ov), maxlen=limit_arg)
     except BaseException as exc:
@@ -214,6 +272,7 @@ def _do_paste(rec, M, rng, nb, nf, ov, limit_arg, mb, mf, tag):
     if got != exp:
         rec.bad("paste-frames", "frames are not reversed(back) + "
                 "forward[shared:] (cut at the limit)", case)
+    _derived(rec, new, case, "pasted path")
     rec.reach("paste_time_order")
     times = [x.config[1] for x in new.phasepoints]
     if any(b - a != 1 for a, b in zip(times, times[1:])):
@@ -299,10 +358,14 @@ def _do_reverse(rec, M, rng, flags, rev_v, fnkind):
     rec.n += 1
     rec.hit(f"reverse_cases_fn_{fnkind}")
     rec.hit("reverse_rev_v_true" if rev_v else "reverse_rev_v_false")
+    if rng.random() < 0.6:
+        _touch(p)
     try:
         q = p.reverse(fn, rev_v=rev_v) if not (rev_v and rng.random() < 0.5) \
             else p.reverse(fn)
+        _derived(rec, q, case, "reversed path")
         qq = q.reverse(fn, rev_v=rev_v)
+        _derived(rec, qq, case, "twice reversed path")
     except BaseException as exc:
         rec.bad("reverse-raised", f"Path.reverse raised "
                 f"{type(exc).__name__}: {exc}", case)
@@ -393,11 +456,31 @@ def _do_copy(rec, M, rng, n):
     src = [_snap(x) for x in p.phasepoints]
     try:
         if kind == "path":
+            if rng.random() < 0.6:
+                _touch(p)
             c = p.copy()
             rec.reach("copy_frames")
             if [_snap(x) for x in c.phasepoints] != src:
                 rec.bad("copy-frames", "Path.copy does not hold the same "
                         "frames in the same order", case)
+            _derived(rec, c, case, "copied path")
+            # the copy is then extended, as the shooting / wire-fencing code
+            # does: by append() or by assigning a longer frame list
+            # (tis.extender: `path.phasepoints = path.phasepoints[:-1] + ...`)
+            c2 = p.copy()
+            c2.maxlen = n + 4
+            far = [_frame(S, "e", 100 + k, [float(rng.choice([-50, 50, 3])),
+                                            4.0], False, arr)
+                   for k in range(2)]
+            if rng.random() < 0.5:
+                for x in far:
+                    c2.append(x)
+                how = "copy extended with append()"
+            else:
+                c2.phasepoints = c2.phasepoints[:-1] + far
+                how = "copy extended by assigning phasepoints"
+            rec.hit("copy_then_extended")
+            _derived(rec, c2, dict(case, extended=how), how)
             if any(a is b for a in c.phasepoints for b in p.phasepoints):
                 rec.hit("copy_shares_frame_objects")
             _independent(rec, "copy_independence", "copy-aliases-original",
